@@ -51,7 +51,7 @@ def run(ctx, anchors=None):
     leafc = leafc[0]
     sparam = [p["n"] for p in leafc.params if p["ct"] == "CScript"][0]
     want_lv = fb.var("TAPROOT_LEAF_TAPSCRIPT").get("value")
-    want_leaf = ("ap", "m:GetSHA256", ("ap", "mut:<<", ("ap", "mut:<<", ("a", "HasherTapLeaf"), symx.C(want_lv)), ("a", sparam)))
+    want_leaf = ("ap", "m:GetSHA256", symx.stream(("a", "HasherTapLeaf"), (symx.C(want_lv), "unsigned char"), (("a", sparam), "CScript")))
     try:
         louts = [o for o in X.explore(leafc, this=this) if o.status in ("end", "ret")]
     except symx.Unsupported as e:
